@@ -188,6 +188,9 @@ class HS(Optimizer):
         # Generates a new harmony
         agent = self._generate_new_harmony(agents[i])
 
+        # Checks the new harmony limits
+        agent.check_limits()
+
         # Calculates the new harmony fitness
         agent.fit = function.pointer(agent.position)
 
